@@ -31,6 +31,9 @@ def eio_generate_id(eng, ctx, args, kwargs):
     r = smt.fresh('new_sid', V)
     iss = ctx.st.get('g', 'issued')
     ctx.assume(z3.Not(iss.c['.'][r]), r != NONE, smt.truthy(r), smt.kind(r) == smt.K_STR)
+    if eng.schema.fields.get(('manager', 'rooms')) is not None:
+        from . import views
+        eng.ext.note('a newly generated id is not in use as a session id or room name (ids are 96 random bits + a sequence number)')
     ctx.st = ctx.st.set('g', 'issued', iss.with_child(('k', r), SV(Leaf('B'), {'': z3.BoolVal(True)})))
     yield ctx, S(r)
 
